@@ -680,6 +680,14 @@ func monitorPath(p *an.Path) bool {
 // result: the inner failure is then lost (the function reports success). It
 // returns a description per finding.
 func (c *Ctx) shadowedErrorResults(f *ssa.Function) []string {
+	if f.Pkg == nil {
+		if o := f.Origin(); o != nil {
+			f = o // an instantiation of a generic helper: look at its declaration
+		}
+	}
+	if f.Pkg == nil || f.Syntax() == nil {
+		return nil
+	}
 	decl, ok := f.Syntax().(*ast.FuncDecl)
 	if !ok || decl.Type.Results == nil || decl.Body == nil {
 		return nil
@@ -773,4 +781,130 @@ func (c *Ctx) shadowedErrorResults(f *ssa.Function) []string {
 		}
 	}
 	return out
+}
+
+// globalFuncTable returns the functions, in index order, that the package
+// initialiser stores into a package-level array or slice variable of function
+// values (`var classes = [...]func(netip.Addr) bool{a, b, c}`), given an
+// expression that denotes the variable (or an element / slice of it). The
+// variable must not be written anywhere else.
+func (c *Ctx) globalFuncTable(e *an.Expr) ([]string, bool) {
+	for e != nil && (e.Op == an.OpSlice || e.Op == an.OpConv || e.Op == an.OpElem) && len(e.Args) > 0 {
+		e = e.Args[0]
+	}
+	if e == nil || e.Op != an.OpGlobal {
+		return nil, false
+	}
+	var g *ssa.Global
+	for _, pkg := range c.P.SSA.AllPackages() {
+		if !load.InModulePkg(pkg) {
+			continue
+		}
+		for _, m := range pkg.Members {
+			if gv, ok := m.(*ssa.Global); ok && pkg.Pkg.Name()+"."+gv.Name() == e.Name {
+				g = gv
+			}
+		}
+	}
+	if g == nil {
+		return nil, false
+	}
+	for _, fn := range c.srcFuncs() {
+		for _, b := range fn.Blocks {
+			for _, in := range b.Instrs {
+				if st, ok := in.(*ssa.Store); ok {
+					if st.Addr == ssa.Value(g) {
+						return nil, false
+					}
+					if ia, ok := st.Addr.(*ssa.IndexAddr); ok && ia.X == ssa.Value(g) {
+						return nil, false
+					}
+				}
+			}
+		}
+	}
+	init := g.Pkg.Func("init")
+	if init == nil {
+		return nil, false
+	}
+	elems := map[int64]string{}
+	nameOf := func(v ssa.Value) string {
+		for {
+			if ct, ok := v.(*ssa.ChangeType); ok {
+				v = ct.X
+				continue
+			}
+			break
+		}
+		switch f := v.(type) {
+		case *ssa.Function:
+			n := f.Name()
+			return strings.TrimSuffix(n[strings.LastIndex(n, ".")+1:], "$thunk")
+		case *ssa.MakeClosure:
+			n := f.Fn.(*ssa.Function).Name()
+			return strings.TrimSuffix(n[strings.LastIndex(n, ".")+1:], "$thunk")
+		}
+		return ""
+	}
+	collectIA := func(ia *ssa.IndexAddr) bool {
+		idx, ok := ia.Index.(*ssa.Const)
+		if !ok || ia.Referrers() == nil {
+			return false
+		}
+		for _, u := range *ia.Referrers() {
+			if st, ok := u.(*ssa.Store); ok {
+				n := nameOf(st.Val)
+				if n == "" {
+					return false
+				}
+				elems[idx.Int64()] = n
+			}
+		}
+		return true
+	}
+	for _, b := range init.Blocks {
+		for _, in := range b.Instrs {
+			switch x := in.(type) {
+			case *ssa.IndexAddr:
+				root := x.X
+				if root == ssa.Value(g) {
+					if !collectIA(x) {
+						return nil, false
+					}
+				}
+			case *ssa.Store:
+				if x.Addr == ssa.Value(g) {
+					var base ssa.Value
+					switch v := x.Val.(type) {
+					case *ssa.Slice:
+						base = v.X
+					case *ssa.UnOp:
+						base = v.X
+					}
+					if base == nil || base.Referrers() == nil {
+						return nil, false
+					}
+					for _, r := range *base.Referrers() {
+						if ia, ok := r.(*ssa.IndexAddr); ok {
+							if !collectIA(ia) {
+								return nil, false
+							}
+						}
+					}
+				}
+			}
+		}
+	}
+	if len(elems) == 0 {
+		return nil, false
+	}
+	var out []string
+	for i := int64(0); i < int64(len(elems)); i++ {
+		n, ok := elems[i]
+		if !ok {
+			return nil, false
+		}
+		out = append(out, n)
+	}
+	return out, true
 }
